@@ -436,7 +436,7 @@ def ppc_Rc(obj,BF,U):
 @ispec("32<[ 111111 BF(3) -- FRA(5) FRB(5) 0000000000 - ]", mnemonic="fcmpu")
 @ispec("32<[ 111111 BF(3) -- FRA(5) FRB(5) 0000100000 - ]", mnemonic="fcmpuo")
 def ppc_fcmpu(obj,BF,FRA,FRB):
-    obj.operands = [BF,env.FPR[FRA],env.FPR[FRB]]
+    obj.operands = [env.cst(BF,3),env.FPR[FRA],env.FPR[FRB]]
     obj.type = type_data_processing
 
 @ispec("32<[ 01111 0=s rS(5) rA(5) UI(16) ]", mnemonic="andi")
@@ -462,17 +462,17 @@ def ppc_E_AA_LK(obj,E,LI):
     obj.operands = [soff]
     obj.type = type_control_flow
 
-@ispec("32<[ 010000 ~BO(5) ~BI(5) BD(14) .AA .LK ]", mnemonic="bc")
-@ispec("32<[ 001001 ~BO(5) ~BI(5) BD(14) .AA .LK ]", mnemonic="bce")
+@ispec("32<[ 010000 BO(5) BI(5) BD(14) .AA .LK ]", mnemonic="bc")
+@ispec("32<[ 001001 BO(5) BI(5) BD(14) .AA .LK ]", mnemonic="bce")
 def ppc_AA_LK(obj,BO,BI,BD):
     soff = env.cst(BD,14).signextend(32)<<2
-    obj.operands = [BO,BI,soff]
+    obj.operands = [env.cst(BO,5),env.cst(BI,5),soff]
     obj.type = type_control_flow
 
-@ispec("32<[ 010011 ~BO(5) ~BI(5) ----- 100001000 .E .LK ]", mnemonic="bcctr")
-@ispec("32<[ 010011 ~BO(5) ~BI(5) ----- 000001000 .E .LK ]", mnemonic="bclr")
+@ispec("32<[ 010011 BO(5) BI(5) ----- 100001000 .E .LK ]", mnemonic="bcctr")
+@ispec("32<[ 010011 BO(5) BI(5) ----- 000001000 .E .LK ]", mnemonic="bclr")
 def ppc_E_LK(obj,BO,BI):
-    obj.operands = [BO,BI]
+    obj.operands = [env.cst(BO,5),env.cst(BI,5)]
     obj.type = type_control_flow
 
 @ispec("32<[ 011111 TO(5) RA(5) RB(5) 0001000100 - ]", mnemonic="td")
@@ -501,25 +501,25 @@ def ppc_trap(obj,TO,RA,SI):
 @ispec("32<[ 011111 BF(3) - L rA(5) rB(5) 0000000000 - ]", mnemonic="cmp")
 @ispec("32<[ 011111 BF(3) - L rA(5) rB(5) 0000100000 - ]", mnemonic="cmpl")
 def ppc_cmp(obj,BF,L,rA,rB):
-    obj.operands = [BF,L,env.GPR[rA],env.GPR[rB]]
+    obj.operands = [env.cst(BF,3),env.cst(L,1),env.GPR[rA],env.GPR[rB]]
     obj.type = type_data_processing
 
 @ispec("32<[ 010011 BF(3) -- BFA(3) ------- 0000000000 - ]", mnemonic="mcfr")
 @ispec("32<[ 111111 BF(3) -- BFA(3) ------- 0001000000 - ]", mnemonic="mcfrs")
 def ppc_mcfr(obj,BF,BFA):
-    obj.operands = [BF,BFA]
+    obj.operands = [env.cst(BF,3),env.cst(BFA,3)]
     obj.type = type_data_processing
 
 @ispec("32<[ 011111 BF(3) ----- ------- 1000000000 - ]", mnemonic="mcrxr")
 @ispec("32<[ 011111 BF(3) ----- ------- 1000100000 - ]", mnemonic="mcrxr64")
 def ppc_mcrx(obj,BF):
-    obj.operands = [BF]
+    obj.operands = [env.cst(BF,3)]
     obj.type = type_data_processing
 
 @ispec("32<[ 111111 BT(5) ---------- 0001000110 .Rc ]", mnemonic="mtfsb0")
 @ispec("32<[ 111111 BT(5) ---------- 0000100110 .Rc ]", mnemonic="mtfsb1")
 def ppc_mcrx(obj,BT):
-    obj.operands = [BT]
+    obj.operands = [env.cst(BT,5)]
     obj.type = type_data_processing
 
 @ispec("32<[ 011111 RT(5) RA(5) ----- 0100010011 - ]", mnemonic="mfapidi")
@@ -565,7 +565,7 @@ def ppc_cmpi(obj,BF,L,rA,SI):
         imm = env.cst(SI,16).signextend(32)
     else:
         imm = env.cst(SI,16).zeroextend(32)
-    obj.operands = [BF,L,env.GPR[rA],imm]
+    obj.operands = [env.cst(BF,3),env.cst(L,1),env.GPR[rA],imm]
     obj.type = type_data_processing
 
 @ispec("32<[ 011111 rS(5) rA(5) ----- 0000 0 11010 .Rc ]", mnemonic="cntlzw")
